@@ -30,6 +30,12 @@ CHECKS = {
             'histories, executed on the real verify(); oracle: CPython ast.parse',
             'Every input in the bounded space is run through verify() and compared with the running CPython parser '
             '(accept/reject, line, blank, stored tree); exhaustive within the alphabets and lengths.', '2/C12'),
+    'C20': ('explicit-state enumeration of operation histories (depth 3/4) over feedback constructions with keyword mixes, '
+            'set_formatter, Class.override for parent/child/grandchild classes, clear_report/contextualize_report and delayed '
+            'conditions, on the real MAIN_REPORT; plus every class x keyword mix x formatter once; oracle: invariants + '
+            'reference template renderer + import-time class-attribute snapshot',
+            'Every bounded history is executed; list membership, truth value, error recording, rendered message and '
+            'class-attribute restoration are checked after every operation.', '2/C20'),
 }
 
 PENDING = ['C02', 'C03', 'C04', 'C05', 'C06', 'C07', 'C08', 'C09', 'C10', 'C11', 'C12', 'C13', 'C14', 'C15',
